@@ -130,4 +130,23 @@ theorem dare_iff_sda_form
     rw [hX]; abel
   rw [this]
 
+/-- **closed-loop matrix as SDA witness.** With `S = R̂ + B'HB`, `M = N̂ + B'HA`, `V = R̂^{-1}`,
+    `Si = S^{-1}`: `(I + B V B' H)(A − B Si M) = A − B V N̂`, i.e. the closed-loop matrix `A − B F`,
+    `F = S^{-1} M`, is `(I + G0 H)^{-1} A0`. -/
+theorem closed_loop_witness
+    (A H : Matrix (Fin k) (Fin k) K) (B : Matrix (Fin k) (Fin n) K) (Nh : Matrix (Fin n) (Fin k) K)
+    (Rh V S Si : Matrix (Fin n) (Fin n) K)
+    (hVR : V * Rh = 1) (hS : S = Rh + Bᵀ * H * B) (hSSi : S * Si = 1) :
+    (1 + B * V * Bᵀ * H) * (A - B * Si * (Nh + Bᵀ * H * A)) = A - B * V * Nh := by
+  have hL : Bᵀ * H * B = S - Rh := by rw [hS]; abel
+  have c1 : ∀ X : Matrix (Fin n) (Fin k) K, S * (Si * X) = X := fun X => by
+    rw [← Matrix.mul_assoc, hSSi, Matrix.one_mul]
+  have c2 : ∀ X : Matrix (Fin n) (Fin k) K, V * (Rh * X) = X := fun X => by
+    rw [← Matrix.mul_assoc, hVR, Matrix.one_mul]
+  have e : B * V * Bᵀ * H * (B * Si * (Nh + Bᵀ * H * A))
+      = B * V * ((Bᵀ * H * B) * (Si * (Nh + Bᵀ * H * A))) := by simp only [Matrix.mul_assoc]
+  rw [Matrix.add_mul, Matrix.one_mul, Matrix.mul_sub, e, hL, Matrix.sub_mul, c1]
+  simp only [Matrix.mul_sub, Matrix.mul_add, Matrix.mul_assoc, c2]
+  abel
+
 end QE.C06
